@@ -341,7 +341,8 @@ def _run(mode, code, time_steps, error_model, decoder, error_probability, measur
             array_sum = runs_data[array_sum_key]  # extract sum
             array_val = data[array_val_key]  # extract val
             if runs_data['n_run'] == 1 and array_val is not None:  # first run, so initialize sum, if val not None
-                array_sum = np.zeros_like(array_val)
+                # accumulate in at least 64-bit ints so bool or narrow-int values are counted, not or-ed or wrapped
+                array_sum = np.zeros_like(array_val, dtype=np.result_type(array_val, np.int64))
             if array_sum is None and array_val is None:  # both None
                 array_sum = None
             elif (array_sum is None or array_val is None) or (array_sum.shape != array_val.shape):  # mismatch
